@@ -78,6 +78,7 @@ type vtimer struct {
 	id       int
 	when     value // deadline (clock units), informational
 	dur      int64 // duration it was armed with, 0 when not concrete
+	armedAt  int64 // concrete clock reading when it was armed, -1 when unknown
 }
 
 type scheduler struct {
@@ -451,6 +452,14 @@ func (s *scheduler) fire(t *vtimer) {
 	}
 	if !t.periodic {
 		t.active = false
+	}
+	// a timer does not fire before the instant it was set for: the virtual clock
+	// moves there (concrete clocks and durations only)
+	if c, ok := s.m.clockVal().(int64); ok && !s.m.clockSymbolic && t.armedAt >= 0 && t.dur > 0 && c < t.armedAt+t.dur {
+		s.m.setClock(t.armedAt + t.dur)
+	}
+	if t.periodic && t.armedAt >= 0 {
+		t.armedAt += t.dur
 	}
 	if t.fn != nil {
 		// AfterFunc: run the callback in its own goroutine
